@@ -193,14 +193,43 @@ Proof.
   - intros H. inversion H; subst. rewrite Hw. repeat split; auto. exists []. reflexivity.
 Qed.
 
+(* SendStreamUnframed::poll_send with no write pending: whatever Quinn answers, a prefix of the caller's
+   buffer is handed over and the buffer is advanced by exactly the count reported; no panic *)
+Lemma poll_send_exact o buf s r s' buf' o' :
+  s_writing s = None ->
+  poll_send o buf s = (r, s', buf', o') ->
+  qs_log (s_q s') ++ wb_view buf' = qs_log (s_q s) ++ wb_view buf /\
+  s_writing s' = None /\ qs_id (s_q s') = qs_id (s_q s) /\
+  poll_not_panic r /\
+  (forall k, r = Ready (Ok k) -> len (wb_view buf') + k = len (wb_view buf)).
+Proof.
+  intros Hw H. unfold poll_send in H. rewrite Hw in H.
+  destruct o as [|[k| |e] o1].
+  - inversion H; subst. repeat split; auto. intros k E. discriminate.
+  - set (c := wb_chunk buf) in *. set (w := N.min k (len c)) in *.
+    destruct (chunk_prefix buf) as (rest & Hview). fold c in Hview.
+    assert (Hwle : w <= len (wb_view buf)) by (rewrite Hview, len_app; unfold w; lia).
+    destruct (wb_advance_ok w buf Hwle) as (b' & Hadv & Hv'). rewrite Hadv in H. inversion H; subst.
+    cbn [s_q s_writing q_accept qs_log qs_id]. repeat split; auto.
+    + rewrite Hv'. rewrite <- app_assoc. f_equal.
+      assert (Hf : firstn (N.to_nat w) c = firstn (N.to_nat w) (wb_view buf)).
+      { rewrite Hview. rewrite firstn_app_le; [reflexivity|]. unfold w, len. lia. }
+      rewrite Hf. apply firstn_skipn.
+    + intros k0 E. inversion E; subst k0. rewrite Hv'. unfold len. rewrite skipn_length. unfold len in Hwle. lia.
+  - inversion H; subst. repeat split; auto. intros k E. discriminate.
+  - inversion H; subst. repeat split; auto.
+    + apply (@of_conv_write_not_panic N).
+    + intros k E. rewrite convert_write_error_spec in E. discriminate.
+Qed.
+
 (* T1c: an overlapping send_data is refused and touches nothing *)
 Lemma send_data_refused b d s :
   s_writing s = Some d -> send_data b s = (Err spec_refusal, s).
-Proof. intros H. unfold send_data. rewrite H, fact_guard, fact_refusal. reflexivity. Qed.
+Proof. intros H. unfold send_data, send_data_with. rewrite H, fact_guard, fact_refusal. reflexivity. Qed.
 
 Lemma send_data_accepted b s :
   s_writing s = None -> send_data b s = (Ok tt, {| s_q := s_q s; s_writing := Some b |}).
-Proof. intros H. unfold send_data. rewrite H. reflexivity. Qed.
+Proof. intros H. unfold send_data, send_data_with. rewrite H. reflexivity. Qed.
 
 (* abstraction of a model trace into the specification's events *)
 Definition abs_send (ev : send_op * send_result) : send_event :=
@@ -414,7 +443,7 @@ Proof.
 Qed.
 
 Lemma recv_id_ok id r : recv_inv id r -> recv_id r = Ok id.
-Proof. intros (H & _). unfold recv_id. rewrite fact_cached. congruence. Qed.
+Proof. intros (H & _). unfold recv_id, recv_id_with. rewrite fact_cached. congruence. Qed.
 
 Definition rr_not_panic (x : recv_result) : Prop :=
   match x with
@@ -707,7 +736,7 @@ Proof.
   intros Hid. destruct (recv_new_inv id Hid) as (r & Hr & Hinv & Hs).
   pose proof Hinv as (_ & (q & Hq & _) & _).
   exists r. eexists. split; [exact Hr|]. rewrite (poll_data_char r q _ Hq). split; [reflexivity|]. split; [reflexivity|].
-  unfold recv_id. rewrite fact_cached. cbn [blocked_state r_id]. destruct Hinv as (H1 & _ & _). congruence.
+  unfold recv_id, recv_id_with. rewrite fact_cached. cbn [blocked_state r_id]. destruct Hinv as (H1 & _ & _). congruence.
 Qed.
 
 (* ====================================================================== BidiStream, open / accept *)
